@@ -226,7 +226,8 @@ pub fn logged_call(s: &mut Session, out: &mut Out, name: &str, with_module: bool
 
 fn finish_event(s: Session, out: &mut Out, version: Option<(u8, u8)>) {
     let mut b = s.b;
-    if let Some((ma, mi)) = version { b.set_version(ma, mi); }
+    // "with the version set on the builder": the LAST one set (an earlier, different one is set first)
+    if let Some((ma, mi)) = version { b.set_version(ma.wrapping_add(1), mi.wrapping_add(2)); b.set_version(ma, mi); }
     let r = catch(move || {
         let m = b.module();
         let ws = m.assemble();
@@ -291,6 +292,42 @@ fn suite_methods(g: &Gram, out: &mut Out, seed: u64, table: &Value) {
         if s.b.selected_block().is_some() { logged_call(&mut s, out, "ret", true); }
         if s.b.selected_function().is_some() { logged_call(&mut s, out, "end_function", true); }
         finish_event(s, out, Some((1, (k % 7) as u8)));
+    }
+}
+
+/// Terminators in combination with the selection: (A) a block that already ends in a terminator is selected again and the
+/// IDENTICAL terminator is emitted once more; (B) the selected block is not the function's last block.  "A terminator
+/// closes the block" - every time, and the instruction goes into the SELECTED block.
+fn suite_term_again(g: &Gram, out: &mut Out, seed: u64, table: &Value) {
+    for (k, name) in pinned(table).iter().enumerate() {
+        let kind = table[*name]["kind"].as_str().unwrap_or("?").to_string();
+        if kind != "term" && kind != "insert_term" { continue; }
+        for scenario in 0..2 {
+            let mut s = new_session(g, out, "new", seed.wrapping_add(k as u64));
+            s.a.full = true;
+            logged_call(&mut s, out, "begin_function", true);
+            logged_call(&mut s, out, "begin_block", true);
+            if scenario == 0 {
+                logged_call(&mut s, out, "nop", true);
+                for round in 0..2 {
+                    s.a.rng = Rng::new(seed + 99 + k as u64); s.a.counter = 6000;      // the same arguments both times
+                    s.a.ip = json!(["End"]);
+                    logged_call(&mut s, out, name, true);
+                    if round == 0 { s.a.index = Some(0); logged_call(&mut s, out, "select_block", true); s.a.index = None; }
+                }
+            } else {
+                logged_call(&mut s, out, "ret", true);
+                logged_call(&mut s, out, "begin_block", true);
+                logged_call(&mut s, out, "nop", true);
+                logged_call(&mut s, out, "ret", true);
+                s.a.index = Some(0); logged_call(&mut s, out, "select_block", true); s.a.index = None;
+                s.a.ip = json!(["End"]);
+                logged_call(&mut s, out, name, true);
+            }
+            if s.b.selected_block().is_some() { logged_call(&mut s, out, "ret", true); }
+            if s.b.selected_function().is_some() { logged_call(&mut s, out, "end_function", true); }
+            finish_event(s, out, None);
+        }
     }
 }
 
@@ -551,7 +588,7 @@ pub fn drive(args: &[String]) {
     let seed = arg_num(args, "--seed", 1);
     let mut histories = 0;
     match arg(args, "--suite").unwrap_or("methods") {
-        "methods" => { suite_methods(&g, &mut out, seed, &table); suite_switch64(&g, &mut out, seed); suite_prefix_types(&g, &mut out, seed); }
+        "methods" => { suite_methods(&g, &mut out, seed, &table); suite_switch64(&g, &mut out, seed); suite_prefix_types(&g, &mut out, seed); suite_term_again(&g, &mut out, seed, &table); }
         "ids" => { suite_ids(&g, &mut out, seed, &table); }
         "histories" => {
             let f = std::io::BufReader::new(std::fs::File::open(arg(args, "--histories").expect("--histories")).unwrap());
